@@ -80,7 +80,8 @@ def _emit(size, d):
 
 # ------------------------------------------------------------------ random command lines (I->S)
 NAMES = ["a", "b", "c", "a-b", "a_b", "a-b-c", "c-", "x1", "a--b", "b_c-x", "x-2", "a_-b"]
-VALUES = ["1", "x", '"x y"', "'q'", "\"'z'\"", 'x"y', '""', "a-b", "k=v", "it's", "'--a'", " sp ", "'\"n\"'"]
+VALUES = ["1", "x", '"x y"', "'q'", "\"'z'\"", 'x"y', '""', "a-b", "k=v", "it's", "'--a'", " sp ", "'\"n\"'",
+          "-5", "-", "-0.25", "-x", "-2b", "-.5"]
 FILES = ["m%d.vtm" % i for i in range(1, 7)]
 
 
@@ -197,7 +198,9 @@ def run(rep):
         "model files exist (the property is stated for existing files); a token in model-file position that is not "
         "an existing file puts the case outside the judged fragment",
         "custom argument names are drawn from the characters a b c x 1 2 - _ (they cannot spell an option of the "
-        "command itself, contain no '='), and no token starts with a single dash",
+        "command itself, contain no '='); a token starting with a single dash is judged in value position only "
+        "(directly after a custom --name; digits, '.', a b c x after the dash so that click cannot read it as -o/-i), "
+        "in model-file position it puts the case outside the fragment",
         "for a repeated name the last occurrence wins (keyword-argument semantics)",
         "a run without model files is judged only with an explicit --language",
         "when exit 1 is prescribed the generator may have been called for earlier model files that load, never "
@@ -266,7 +269,7 @@ META = dict(
                 "in-process and the observation is judged by TLC, and seeded-random longer command lines are judged "
                 "the same way."),
     level_note=("The module is a function, so TLC contributes exhaustive enumeration and the executable definition, "
-                "not interleavings. Universe: names a, a-b, a_b; bare / valued / quoted; <= 3 custom arguments in "
+                "not interleavings. Universe: names a, a-b, a_b; bare / valued / quoted / dash-leading value (-5, -); <= 3 custom arguments in "
                 "every order, raw token sequences up to 3 (quick) or 4 (thorough) tokens, 4 declarations, 3 ways of "
                 "choosing the language; check over <= 3 files. Beyond that coverage is seeded-random."),
     technique="TLC model checking of Cli.tla over a bounded argv universe + exhaustive replay + TLC-judged random runs",
